@@ -135,6 +135,14 @@ def strata_frames(ctx, lengths=None):
         if L >= 8 and (L - 8) % 12 == 0 and (L - 8) // 12 < 256:
             p = bytearray(pl); p[5] = (L - 8) // 12
             out.append((0, b"\x01", b"\x35", bytes(p)))                         # NAV-SAT
+    if lengths is None:
+        # class / id / payload bytes that look like framing bytes of the three protocols (sync chars, '$', 0xd3, LF):
+        # a frame is a frame whatever its content
+        special = [0xb5, 0x62, 0x24, 0xd3, 0x0a, 0x00, 0xff]
+        for c in special:
+            for i in special:
+                for pl in (b"", b"\xb5\x62", bytes([c, i]) + b"\xb5\x62\x00\x00", b"\x62\xb5\xd3\x00\x00\x24\x47\x0a" + bytes(rng.getrandbits(8) for _ in range(4))):
+                    out.append((0, bytes([c]), bytes([i]), pl))
     return out
 
 
@@ -375,12 +383,38 @@ def check_C03(ctx):
             continue
         lines.append(f"construct {ent['cls'].hex()} {ent['id'].hex()} {ent['mode']} {bf} A " + " ".join(kw_tokens(keep, lay.names)))
         meta.append(("subset", ent, lay, bf, keep))
+    # (c) a single un-indexed attribute supplied with a zero / blank value: a supplied value is a supplied value,
+    #     however falsy (variant discriminators such as datumNum=0, type=0 included)
+    def zero_like(v):
+        if isinstance(v, bool) or isinstance(v, int):
+            return 0
+        if isinstance(v, float):
+            return 0.0
+        if isinstance(v, bytes):
+            return bytes(len(v))
+        if isinstance(v, list):
+            return [0] * len(v)
+        return None
+    for ent, lay, fr in gen_frames(ctx, 1):
+        if not kw_constructible(ent) or has_var_group(ent["defn"]):
+            continue
+        full = dict(lay.attrs[1])
+        plain = [k for k in full if lay.names.get(k, (k, []))[1] == [] and zero_like(full[k]) is not None]
+        pick = [k for k in plain if k in ("type", "version", "tpIdx", "datumNum")]
+        rest = [k for k in plain if k not in pick]
+        rng.shuffle(rest)
+        for k in pick + rest[:ctx.n(2, 12)]:
+            kw1 = {k: zero_like(full[k])}
+            lines.append(f"construct {ent['cls'].hex()} {ent['id'].hex()} {ent['mode']} 1 A " + " ".join(kw_tokens(kw1, lay.names)))
+            meta.append(("zero-single", ent, lay, 1, kw1))
     py = do_corr(res, lines)
     samples = []
     for (kind, ent, lay, bf, kw), a, l in zip(meta, py, lines):
         nm = f"{defs.MODENAME[ent['mode']]}:{ent['name']}"
         res.distinct((kind, nm, bf))
         if not a.startswith("ok "):
+            if kind == "zero-single":
+                continue    # a lone keyword may legitimately not select this variant / be refused; only silent loss counts
             # the parser's own report is refused by the constructor
             key = classify_c03_refusal(ent, lay, bf, kw, a)
             res.finding(key, f"attribute values reported by the parser are refused by the constructor: {a}", dict(op=l[:3000]))
@@ -404,6 +438,10 @@ def check_C03(ctx):
                 if k in back and not same_value(back[k], v):
                     key = classify_c03_field(ent, k, v, back[k])
                     res.finding(key, f"attribute {k} supplied {v!r} parses back as {back[k]!r}", dict(op=l[:3000]))
+                elif k not in back and v == "" and ent["defn"].get(k) == "CH":
+                    res.finding("class=empty-CH-payload", f"attribute {k} supplied '' is absent from the parsed message (zero-length payload is read as None)", dict(op=l[:3000]))
+                elif k not in back:
+                    res.finding(f"def={nm};field={base_of(k)};class=supplied-attribute-lost", f"attribute {k} supplied {v!r} is absent from the parsed message", dict(op=l[:3000]))
             for k, v in back.items():
                 if k not in kw and not is_blank(v):
                     res.finding(f"def={nm};field={k};class=omitted-not-zero", f"omitted attribute {k} = {v!r}", dict(op=l[:3000]))
@@ -1203,17 +1241,27 @@ def check_C07(ctx):
         res.hist[f"items={min(len(items), 5)}"] += 1
     # nothing left unread: run the real reader and look at the stream position when iteration stops
     sub = streams if len(streams) < 4000 else rng.sample(streams, 4000)
-    for s in sub:
+    jobs = [(s, dict(protfilter=rng.choice([7, 7, 2, 0]), parsing=rng.choice([True, True, False]), validate=rng.choice([1, 1, 0]))) for s in sub]
+    # … and, first of all, every stream on which model and implementation disagreed, under the configuration of that operation
+    difflines = {d["op"] for d in res.diffs}
+    for (s, src, q, filt, parsing, mode, val, bf), l in zip(meta, lines):
+        if l in difflines:
+            jobs.insert(0, (s, dict(protfilter=filt, parsing=bool(parsing), validate=val, msgmode=mode, parsebitfield=bool(bf))))
+    # clean weaves ending in frames that follow a frame a protocol parser rejects for its own reasons
+    for _ in range(ctx.n(400, 6000)):
+        frames, s = clean_stream(ctx, corrupt_p=0.25, noise_p=0.2)
+        jobs.append((s, dict(protfilter=rng.choice([7, 7, 4, 5, 3]), parsing=True, validate=rng.choice([1, 0]))))
+    for s, kw in jobs:
         st = io.BytesIO(s)
         try:
-            for _ in UBXReader(st, quitonerror=0, protfilter=rng.choice([7, 2, 0]), parsing=rng.choice([True, False])):
+            for _ in UBXReader(st, quitonerror=0, **kw):
                 pass
         except Exception as e:  # noqa
-            res.finding(f"class=reader-raised-{canon.excname(e)}", "iteration raised under ERR_IGNORE", dict(stream=s.hex()))
+            res.finding(f"class=reader-raised-{canon.excname(e)}", "iteration raised under ERR_IGNORE", dict(stream=s.hex(), config=kw))
             continue
         res.count()
         if st.tell() != len(s):
-            res.finding("class=eof-with-data-left", f"iteration stopped at position {st.tell()} of {len(s)}", dict(stream=s.hex()))
+            res.finding("class=eof-with-data-left", f"iteration stopped at position {st.tell()} of {len(s)}", dict(stream=s.hex(), config=kw))
     samples = [dict(stream=s.hex()) for s in streams[1000:1003]]
     res.coverage["exhaustive"] = False
     return res.finish(f"distinct streams: all strings of length ≤ {maxlen} over 10 frame-relevant bytes (exhaustive part), random longer ones, garbage mixtures", samples)
